@@ -445,6 +445,42 @@ fn float_inplace_case(wide: bool) -> Bad {
     }
 }
 
+/// zip_map_in_place over two frame types with DIFFERENT channel counts (stereo against a mono
+/// control slice, as frames `[S; 1]` and as bare samples): the length that must agree is the number
+/// of frames, not the number of samples.
+fn mixed_width_case(la: usize, lb: usize) -> Bad {
+    let a0: Vec<[f32; 2]> = (0..la).map(|i| [i as f32 * 0.125 - 0.25, 0.5 - i as f32 * 0.0625]).collect();
+    let b1: Vec<[f32; 1]> = (0..lb).map(|i| [0.25 * i as f32 + 0.125]).collect();
+    let b0: Vec<f32> = b1.iter().map(|f| f[0]).collect();
+    let i0: Vec<[i16; 3]> = (0..la).map(|i| [i as i16 * 100, -50, 7 - i as i16]).collect();
+    let j1: Vec<[i16; 1]> = (0..lb).map(|i| [i as i16 * 3 - 4]).collect();
+    let tag = format!("zip_map_in_place over {la} wide frames and {lb} mono frames");
+    macro_rules! one {
+        ($a0:expr, $b:expr, $f:expr, $what:expr) => {{
+            let mut a = $a0.clone();
+            let mut calls = 0usize;
+            let r = catch(|| {
+                dasp_slice::zip_map_in_place(&mut a, &$b[..], |x, y| {
+                    calls += 1;
+                    $f(x, y)
+                })
+            });
+            if la == lb {
+                let exp: Vec<_> = $a0.iter().zip($b.iter()).map(|(x, y)| $f(*x, *y)).collect();
+                if r.is_err() || a != exp || calls != la {
+                    return bad("inplace.zip_map", format!("{tag} ({}): gave {a:?} after {calls} closure calls (panicked: {}), expected {exp:?}", $what, r.is_err()));
+                }
+            } else if r.is_ok() || a != $a0 || calls != 0 {
+                return bad("inplace.mismatch", format!("{tag} ({}): different frame counts: panicked={} destination modified={} closure calls={calls}", $what, r.is_err(), a != $a0));
+            }
+        }};
+    }
+    one!(a0, b1, |x: [f32; 2], y: [f32; 1]| [x[0] * y[0], x[1] + y[0]], "[f32;2] with [f32;1]");
+    one!(a0, b0, |x: [f32; 2], y: f32| [x[0] * y, x[1] + y], "[f32;2] with bare f32");
+    one!(i0, j1, |x: [i16; 3], y: [i16; 1]| [x[0].wrapping_add(y[0]), x[1], x[2].wrapping_sub(y[0])], "[i16;3] with [i16;1]");
+    None
+}
+
 fn inplace_dispatch(name: &str, la: usize, lb: usize) -> Bad {
     match name {
         "[f32;2]" => inplace_case::<[f32; 2], [f32; 2], [f32; 2]>(name, la, lb, |i| [i as f32 * 0.125 - 0.5, 0.25 - i as f32 * 0.0625], |i| [0.0625 * i as f32, -0.125], [0.5, -1.0]),
@@ -466,7 +502,9 @@ fn main() {
     let table = build_table();
     if let Some(v) = ctx.replay_case() {
         let _guard_scope = guard::scoped(&v.to_string());
-        let r = if v["sys"] == "inplace_float" {
+        let r = if v["sys"] == "inplace_mixed_width" {
+            mixed_width_case(v["la"].as_u64().unwrap_or(0) as usize, v["lb"].as_u64().unwrap_or(0) as usize)
+        } else if v["sys"] == "inplace_float" {
             float_inplace_case(v["wide"].as_bool().unwrap_or(false))
         } else if v["sys"] == "inplace_abs" {
             abs_inplace_case(v["fmt_ix"].as_u64().unwrap_or(0) as usize)
@@ -531,6 +569,19 @@ fn main() {
             Err(p) => ctx.violation("inplace.panic", case, format!("[{};2] absolute in-place check: unexpected panic: {p}", ABS_FORMATS[fmt_ix]), None),
         }
     }
+    for la in 0..=6usize {
+        for lb in 0..=12usize {
+            let case = json!({"sys": "inplace_mixed_width", "la": la, "lb": lb});
+            let _guard_scope = guard::scoped(&case.to_string());
+            evals += 1;
+            match catch(|| mixed_width_case(la, lb)) {
+                Ok(None) => ctx.observe(common::fnv_str(&format!("ipmw{la}/{lb}"))),
+                Ok(Some((k, m))) => ctx.violation(&k, case, m, Some(&|| mixed_width_case(la, lb).map(|x| x.1))),
+                Err(p) => ctx.violation("inplace.panic", case, format!("mixed-width zip_map_in_place la={la} lb={lb}: unexpected panic: {p}"), None),
+            }
+        }
+    }
+    ctx.rule("zip_map_in_place over frame types of different channel counts ([f32;2] with [f32;1] and with bare f32, [i16;3] with [i16;1]) for every (la, lb) in 0..=6 x 0..=12: equal frame counts => element-wise closure result, closure called once per frame; different frame counts (equal sample counts included) => panic, destination untouched, closure never called");
     for wide in [false, true] {
         let case = json!({"sys": "inplace_float", "wide": wide});
         let _guard_scope = guard::scoped(&case.to_string());
